@@ -69,10 +69,14 @@ def import_case(case):
     from joserfc.jwk import JWKRegistry
     rnd = random.Random(json.dumps(case, sort_keys=True))
     outs = []
-    for kind in KINDS[case["kty"]]:          # every curve of the type
-        j = mutate_jwk(case, rnd, kind)
+    for kind, alone in [(k, a) for k in KINDS[case["kty"]] for a in ((False, True) if case["member"] in ("use", "key_ops") else (False,))]:
+        j = mutate_jwk(case, rnd, kind)          # every curve of the type
         if j is None:
             continue
+        if alone:                                # use / key_ops judged on their own, without the member they are cross-checked against
+            j.pop("key_ops" if case["member"] == "use" else "use", None)
+            if case["mutation"] == "contradict":
+                continue
         try:
             k = JWKRegistry.import_key(json.loads(json.dumps(j)))
             k.as_dict()
